@@ -18,6 +18,8 @@ def is_missing(v):
 
 def fmt_num(v):
     """Shortest decimal text that parses back to exactly v (repr), without exponent surprises."""
+    if v is None or (isinstance(v, float) and v != v):
+        return "nan"
     if float(v) == int(v) and abs(v) < 1e15:
         return "%d" % int(v)
     return repr(float(v))
